@@ -32,6 +32,17 @@ Theorem C28_join_delta_tickinv :
 Proof. exact static_pairs_tickinv. Qed.
 Print Assumptions C28_join_delta_tickinv.
 
+(* Stream::join with a Bounded right side (HydroNode::JoinHalf): join_multiset_half<'static,'tick>,
+   no multiset_delta.  Sound because the build side is complete in the first tick (its input is
+   empty afterwards): every probe item meets the whole build side exactly once, in probe order *)
+Theorem C28_join_half_tickinv :
+  forall m xss R (bs : list env), length xss = length bs -> bs <> [] ->
+    concat (op_run LStatic ([], []) (pair_step m LTick LStatic)
+              (combine xss (R :: map (fun _ => []) (tl bs))))
+    = pairs_with m (concat xss) R.
+Proof. exact half_tickinv. Qed.
+Print Assumptions C28_join_half_tickinv.
+
 (* the generator fragment (limit / first at top level): scan::<'static> + flat_map *)
 Theorem C28_generator_tickinv :
   forall init f xss,
